@@ -750,12 +750,36 @@ def old_snapshot_again(**kw):
     return sc.rec
 
 
+def dump_kill_points(**kw):
+    """a journaled node with a dump file is killed at each storage primitive of the tick that writes its dump
+    (tmp write, rename, right after the rename) and restarted: the file under the dump's name is always a complete
+    snapshot, and the node comes back with everything it acknowledged"""
+    sc = Script(base_cfg([1, 2], journal='file', dump='file'), **kw)
+    s = sc.s
+    s.boot()
+    sc.elect(1)
+    sc.settle([1, 2], 2)
+    for w in range(8):
+        for _ in range(3):
+            s.submit(1, size=10)
+        sc.settle([1, 2], 4)
+        sc.rec.do(('compact', 2))
+        s.clock[2] += 11
+        sc.rec.do(('tickkill', 2, s.clock[2], 3, w))
+        if 2 not in sc.sim.nodes:
+            s.alive.discard(2)
+            s.drop(1, 2)
+            s.restart(2)
+        sc.settle([1, 2], 6)
+    return sc.rec
+
+
 SCENARIOS = {'d7': d7, 'd8': d8, 'd17': d17, 'd16': d16, 'd1': d1, 'd20': d20,
              'snapshot_catchup': snapshot_catchup, 'forwarded': forwarded,
              'restart_double_vote': restart_double_vote, 'd18': d18, 'd10': d10, 'd19': d19, 'd6': d6,
              'ser_fork': ser_fork, 'ser_custom': ser_custom, 'fig8': fig8, 'stale_match_reelected': stale_match_reelected,
              'stale_cursor': stale_cursor, 'compact_during_install': compact_during_install,
-             'member_rollback': member_rollback, 'backoff_burst': backoff_burst, 'snapshot_members': snapshot_members, 'old_snapshot_again': old_snapshot_again}
+             'member_rollback': member_rollback, 'backoff_burst': backoff_burst, 'snapshot_members': snapshot_members, 'old_snapshot_again': old_snapshot_again, 'dump_kill_points': dump_kill_points}
 NAMES = sorted(SCENARIOS)
 
 
